@@ -2,7 +2,9 @@
 C10 driver.  One line = one scenario (request names, sender goroutines, scripted client) plus the
 distinct observations the real `clientProcessRunner` produced on it.
 
-`holds`  := the property's predicates (`Spec.reqOK`, `Spec.refusedOK`, not running, wait returned)
+`holds`  := the property's predicates (`Spec.reqOK`, `Spec.refusedOK`, not running — at the end, and
+            already when the failure of the output stream is reported: inside the error callbacks and
+            as soon as the reader has finished, while the client still lingers —, wait returned)
             evaluated on every *implementation* observation;
 `agree`  := every implementation observation is a member of the model's outcome set for that
             scenario, obtained by exploring **all** interleavings of `ClientRunner.step` (the
@@ -17,7 +19,7 @@ open Lean ConfModel.Driver ConfModel.ClientRunner
 
 /-- scripted client actions (see harness `VerifC10Act`) -/
 inductive Act
-  | recv | resp (m : Nat) | bad | cut (m k len : Nat) | exit (code : Nat)
+  | recv | resp (m : Nat) | bad | cut (m k len : Nat) | exit (code : Nat) | hang
 
 def parseAct (j : Json) : Option Act :=
   match str (field j "k") with
@@ -27,6 +29,7 @@ def parseAct (j : Json) : Option Act :=
   | "garbage" => some .bad
   | "cut" => some (.cut (nat (field j "m")) (nat (field j "n")) (nat (field j "len")))
   | "exit" => some (.exit (nat (field j "code")))
+  | "hang" => some .hang
   | _ => none
 
 structure X where
@@ -34,14 +37,21 @@ structure X where
   client : List Act
   /-- the reader has consumed a proper, non-empty prefix of a message -/
   midMsg : Bool
-  /-- 0 senders running · 1 closeSend called · 2 waitForResponses returned · 3 isRunning()=false seen -/
+  /-- 0 senders running · 1 closeSend called · 2 reader finished: isRunning sampled, lingering client
+  released · 3 waitForResponses returned · 4 isRunning()=false seen -/
   mainPc : Nat
   waitRet : String
+  /-- isRunning() when the main thread saw the reader finished -/
+  runAtDone : Bool := false
+  /-- the final drain happened: (after an abort, i.e. the reason was not a clean EOF; isRunning() then) -/
+  drain : Option (Bool × Bool) := none
 
 structure Scn where
   n : Nat
   names : Nat → ClientRunner.Name
   threads : List (List Nat)
+  /-- the script contains `hang`: the client ignores the abort until the main thread releases it -/
+  lingers : Bool := false
 
 def lateName : Nat := 1000000
 
@@ -57,12 +67,12 @@ def firedKey (f : List (Nat × Option ClientRunner.Name)) : List String :=
   sortStrings (f.map fun (i, o) => s!"{i}:{match o with | some m => toString m | none => "x"}")
 
 def actCode : Act → String
-  | .recv => "r" | .resp m => s!"p{m}" | .bad => "b" | .cut m k l => s!"c{m}.{k}.{l}" | .exit c => s!"x{c}"
+  | .recv => "r" | .resp m => s!"p{m}" | .bad => "b" | .cut m k l => s!"c{m}.{k}.{l}" | .exit c => s!"x{c}" | .hang => "h"
 
 def X.key (sc : Scn) (x : X) : String :=
   let s := x.s
   let pcs := (List.range (sc.n + 1)).map (fun i => spcCode (s.spc i))
-  s!"{pcs}|{s.sendMu}|{s.closedSend}|{s.pending}|{match s.err with | none => 0 | some .closed => 1 | some .fail => 2}|{s.terminated}|{rpcCode s.rpc}|{firedKey s.fired}|{match s.proc with | .running => "R" | .exited c => s!"E{c}"}|{s.aborted}|{s.hookRan}|{x.client.length}|{x.midMsg}|{x.mainPc}|{x.waitRet}"
+  s!"{pcs}|{s.sendMu}|{s.closedSend}|{s.pending}|{match s.err with | none => 0 | some .closed => 1 | some .fail => 2}|{s.terminated}|{rpcCode s.rpc}|{firedKey s.fired}|{match s.proc with | .running => "R" | .exited c => s!"E{c}"}|{s.aborted}|{s.hookRan}|{x.client.length}|{x.midMsg}|{x.mainPc}|{x.waitRet}|{x.runAtDone}|{x.drain}"
 
 def isRet : SPc → Bool | .ret _ => true | _ => false
 
@@ -92,7 +102,9 @@ def writing? (sc : Scn) (s : State) : Option Nat := (List.range (sc.n + 1)).find
 /-- moves of the scripted client -/
 def clientMoves (sc : Scn) (x : X) : List X :=
   if exited x.s then [] else
-  let abortMove := if x.s.aborted then (tryStep sc x (.pExit 1)).map (fun y => { y with client := [] }) else []
+  let released := x.mainPc ≥ 2
+  let abortMove := if x.s.aborted && (!sc.lingers || released) then
+      (tryStep sc x (.pExit 1)).map (fun y => { y with client := [] }) else []
   let pop (y : X) : X := { y with client := x.client.tail }
   let normal : List X :=
     match x.client with
@@ -108,6 +120,7 @@ def clientMoves (sc : Scn) (x : X) : List X :=
       else if k < len then (if x.s.rpc == .reading then [{ pop x with midMsg := true }] else [])
       else (tryStep sc x (.rRecv m)).map pop
     | .exit c :: _ => (tryStep sc x (.pExit c)).map (fun y => { y with client := [] })
+    | .hang :: _ => if released then [pop x] else []
   abortMove ++ normal
 
 def waitClass (s : State) : String :=
@@ -122,18 +135,20 @@ def mainMoves (sc : Scn) (x : X) : List X :=
     if sc.threads.all (fun t => (nextReq x.s t).isNone) then
       (tryStep sc x .uCloseSend).map (fun y => { y with mainPc := 1 })
     else []
-  | 1 => if x.s.rpc == .done && exited x.s then [{ x with mainPc := 2, waitRet := waitClass x.s }] else []
-  | 2 => if x.s.terminated then [{ x with mainPc := 3 }] else []
+  | 1 => if x.s.rpc == .done then [{ x with mainPc := 2, runAtDone := isRunning x.s }] else []
+  | 2 => if x.s.rpc == .done && exited x.s then [{ x with mainPc := 3, waitRet := waitClass x.s }] else []
+  | 3 => if x.s.terminated then [{ x with mainPc := 4 }] else []
   | _ => []
 
 def readerMoves (sc : Scn) (x : X) : List X :=
-  let internal := [Event.rLookup, .rFire, .rSetErr, .rTerminate, .rAbort, .rCloseSend, .rDrain, .rDone].flatMap (tryStep sc x)
+  let internal := [Event.rLookup, .rFire, .rSetErr, .rTerminate, .rAbort, .rCloseSend, .rDone].flatMap (tryStep sc x) ++
+    (tryStep sc x .rDrain).map (fun y => { y with drain := some (x.s.aborted, isRunning x.s) })
   let eof := if x.s.rpc == .reading && exited x.s then
       (if x.midMsg then tryStep sc x .rRecvBad else tryStep sc x .rRecvEOF) else []
   internal ++ eof
 
 def moves (sc : Scn) (x : X) : List X :=
-  sc.threads.flatMap (senderMoves sc x) ++ (if x.mainPc == 3 then senderMoves sc x [sc.n] else []) ++
+  sc.threads.flatMap (senderMoves sc x) ++ (if x.mainPc == 4 then senderMoves sc x [sc.n] else []) ++
     readerMoves sc x ++ tryStep sc x .pHook ++ mainMoves sc x ++ clientMoves sc x
 
 def retClass : SPc → String
@@ -144,18 +159,30 @@ def intsKey (l : List Int) : String := ",".intercalate (l.map toString)
 
 def sortInts (l : List Int) : List Int := (l.toArray.qsort (· < ·)).toList
 
-def cbInts (s : State) (i : Nat) : List Int :=
-  sortInts ((Spec.cbsOf s i).map fun o => match o with | some m => (m : Int) | none => -1)
+/-- code of an error callback (they all come from the final drain): -1 / -3 the reader's reason
+(failure of the output stream), isRunning() false / true inside the callback; -4 clean end of the
+stream (`errNoOutcome`).  After a clean end the exit hook of the process stores `terminated`
+concurrently with the drain — even between two callbacks of the same drain, which is one atomic
+step of the model — so what isRunning() says inside those callbacks (the harness reports it as
+-4 / -5) is not compared. -/
+def errCode (drain : Option (Bool × Bool)) : Int :=
+  match drain with
+  | some (true, false) => -1 | some (true, true) => -3
+  | some (false, _) => -4
+  | none => -1
 
-def obsKey (rets : List String) (cbs : List (List Int)) (wait : String) (running : Bool) (late : String) (lateCbs : Nat) : String :=
-  s!"{",".intercalate rets}|{";".intercalate (cbs.map intsKey)}|{wait}|{running}|{late}|{lateCbs}"
+def cbInts (x : X) (i : Nat) : List Int :=
+  sortInts ((Spec.cbsOf x.s i).map fun o => match o with | some m => (m : Int) | none => errCode x.drain)
+
+def obsKey (rets : List String) (cbs : List (List Int)) (runAtDone : Bool) (wait : String) (running : Bool) (late : String) (lateCbs : Nat) : String :=
+  s!"{",".intercalate rets}|{";".intercalate (cbs.map intsKey)}|{runAtDone}|{wait}|{running}|{late}|{lateCbs}"
 
 def X.obs (sc : Scn) (x : X) : String :=
   let ids := List.range sc.n
-  obsKey (ids.map fun i => retClass (x.s.spc i)) (ids.map (cbInts x.s)) x.waitRet (isRunning x.s)
+  obsKey (ids.map fun i => retClass (x.s.spc i)) (ids.map (cbInts x)) x.runAtDone x.waitRet (isRunning x.s)
     (retClass (x.s.spc sc.n)) (Spec.cbsOf x.s sc.n).length
 
-def X.final (sc : Scn) (x : X) : Bool := x.mainPc == 3 && isRet (x.s.spc sc.n)
+def X.final (sc : Scn) (x : X) : Bool := x.mainPc == 4 && isRet (x.s.spc sc.n)
 
 /-- exhaustive exploration; returns (outcome set, number of states, stuck non-final states) -/
 partial def explore (sc : Scn) (limit : Nat) (work : List X) (seen : Std.HashSet String)
@@ -178,7 +205,25 @@ def classOfRet (c : String) : Option SendRet :=
   | "ok" => some .ok | "dup" => some .dup | "closed" => some (.err .closed) | "fail" => some (.err .fail)
   | _ => none
 
-def cbOfInt (v : Int) : Option ClientRunner.Name := if v == -1 then none else if v < 0 then some 999999 else some v.toNat
+def isErrCode (v : Int) : Bool := v == -1 || v == -3 || v == -4 || v == -5
+
+def cbOfInt (v : Int) : Option ClientRunner.Name := if isErrCode v then none else if v < 0 then some 999999 else some v.toNat
+
+/-- a lingering client (script with `hang`) is only meaningful — and only then free of the wedge
+that an in-process client which ignores its cancellation can cause — if it has consumed all n
+requests before it writes anything, and if the reader is certain to have failed before the first
+`hang` (oversize / garbage, an answer for a name that is no request, a second answer for a name) -/
+def lingerOK (n : Nat) (names : List Nat) (acts : List Act) : Bool :=
+  let isRecv (a : Act) : Bool := match a with | .recv => true | _ => false
+  let isHang (a : Act) : Bool := match a with | .hang => true | _ => false
+  let before := acts.takeWhile (fun a => !isHang a)
+  let rec fails : List Act → List Nat → Bool
+    | [], _ => false
+    | .bad :: _, _ => true
+    | .resp m :: rest, seen => !names.contains m || seen.contains m || fails rest (m :: seen)
+    | .cut m k len :: rest, seen => if k ≥ len then (!names.contains m || seen.contains m || fails rest (m :: seen)) else fails rest seen
+    | _ :: rest, seen => fails rest seen
+  (acts.takeWhile isRecv).length ≥ n && fails before []
 
 /-- the client wrote a complete response named m somewhere in its script -/
 def scriptAnswers (acts : List Act) (m : Nat) : Bool :=
@@ -210,9 +255,11 @@ def handle : Handler := fun op inp impl =>
       | _ :: rest => okCut rest
       | [] => true
     if !okCut acts then bad "script writes after a cut" else
+    let lingers := acts.any (fun a => match a with | .hang => true | _ => false)
+    if lingers && !lingerOK n namesL acts then bad "lingering client that may wedge the runner or never fails" else
     if !(isNull (field impl "panic")) then
       { agree := false, holds := false, why := "panic: " ++ str (field impl "panic") } else
-    let sc : Scn := { n := n, names := fun i => if i < n then namesL.getD i 0 else lateName, threads := threads }
+    let sc : Scn := { n := n, names := fun i => if i < n then namesL.getD i 0 else lateName, threads := threads, lingers := lingers }
     let x0 : X := { s := init, client := acts, midMsg := false, mainPc := 0, waitRet := "" }
     let (outs, states, stuck) := explore sc 400000 [x0] (Std.HashSet.emptyWithCapacity 1024 |>.insert (x0.key sc)) {} 0
     let obsL := arr (field impl "obs")
@@ -221,14 +268,19 @@ def handle : Handler := fun op inp impl =>
       let rets := strList (field o "rets")
       let cbs := (arr (field o "cbs")).map intList
       let wait := str (field o "wait")
+      let runAtDone := bool (field o "runAtDone")
       let running := bool (field o "running")
       let late := str (field o "late")
       let lateCbs := nat (field o "lateCbs")
       let hang := str (field o "hang")
-      let key := obsKey rets (cbs.map sortInts) wait running late lateCbs
+      let key := obsKey rets (cbs.map fun l => sortInts (l.map fun v => if v == -5 then -4 else v)) runAtDone wait running late lateCbs
       let perReq := (List.range n).all fun i =>
         Spec.reqOK (sc.names i) (classOfRet (rets.getD i "")) ((cbs.getD i []).map cbOfInt)
       let causal := (List.range n).all fun i => (cbs.getD i []).all fun v => v < 0 || scriptAnswers acts v.toNat
+      -- the failure of the output stream is being reported to a request, yet isRunning() is true
+      let cbRunning := cbs.any fun l => l.contains (-3)
+      -- the reader has finished and refuses later sends with its reason (c.err), yet isRunning() is true
+      let doneRunning := runAtDone && late == "fail"
       let refused := Spec.refusedOK (classOfRet late) (List.replicate lateCbs none)
       let cleanOK := !clean || ((List.range n).all fun i => rets.getD i "" == "ok" && cbs.getD i [] == [(sc.names i : Int)]) && wait == "nil"
       let why :=
@@ -236,6 +288,8 @@ def handle : Handler := fun op inp impl =>
         else if !perReq then "exactly-once/own-response violated: rets " ++ toString rets ++ " callbacks " ++ toString cbs
         else if !causal then "a callback received a response the client never wrote"
         else if !refused then "send after shutdown not refused: " ++ late
+        else if cbRunning then "isRunning() still true inside the completion callback that reports the failure of the client's output stream: callbacks " ++ toString cbs
+        else if doneRunning then "isRunning() still true after the output reader had failed and shut down (later sends are refused with its error) — the runner waits for the client process to go away" ++ (if lingers then ", and this client lingers" else "")
         else if running then "isRunning() still true after waitForResponses returned"
         else if !cleanOK then "well-behaved client, yet some request was not answered with its own response (or waitForResponses reported an error)"
         else ""
